@@ -482,12 +482,59 @@ def run(rep, tier, seed):
         check_exhaustive(rep, name, cdc, ts, hx, n, limit)
     for name, cdc, ts, hx in _broken_streams():
         check_broken(rep, name, cdc, ts, hx)
+    check_large(rep)
     if tier == 'quick':
         sampled(rep, rng, 1300, 8)
     else:
         sampled(rep, rng, 30000, 10)
     rep.extra['driver_requests'] = drv.n
     drv.close()
+
+
+def check_large(rep):
+    """streams longer than the wrapper's 8192-octet cache window (indefinite-length containers only: a definite-length
+    container crossing the window on a non-seekable stream is the recorded finding S4 of C11)"""
+    body = b''.join(b'\x04\x82\x01\x90' + bytes([65 + i]) * 400 for i in range(24))
+    streams_ = [
+        ('large-indef-seqof', 'ber', None, b'\x30\x80' + body + b'\x00\x00' + b'\x02\x01\x07' + b'\x30\x80\x02\x01\x01\x00\x00', 3),
+        ('large-nested-indef', 'ber', None, b'\x30\x80\x02\x01\x05\x30\x80' + body + b'\x00\x00\x01\x01\xff\x00\x00' + b'\x05\x00', 2),
+        ('large-many-items', 'ber', '(str 4)', body, 24),
+    ]
+    for name, cdc, ts, data, n_items in streams_:
+        t = ty_of(ts)
+        spec = gen.build(t) if t is not None else None
+        rep.case('large ' + name, nontrivial=True, sample={'stream': name, 'codec': cdc, 'octets': len(data)})
+        whole = whole_reference(rep, name, cdc, ts, t, spec, data, n_items)
+        if whole is None:
+            continue
+        def one(kind, chunks):
+            if kind == 'K3':
+                return check_schedule(rep, name, cdc, ts, t, spec, data, whole, kind, chunks, with_model=False)
+            # behind the wrapper the reported positions restart when the cache is dropped (C11, S4): compare the
+            # objects and the kinds of events only
+            r = run_kind(codec.DEC[cdc], kind, chunks, spec, t)
+            got = strip_u(r.tokens)
+            if kinds_only(got) != kinds_only(whole.tokens) or r.values != whole.values:
+                last = got[-1] if got else 'nothing'
+                rep.fail('schedule-' + last.split('@')[0].replace(':', '-') if kinds_only(got) != kinds_only(whole.tokens)
+                         else 'schedule-value-differs',
+                         '%s %s: under the schedule %s -> %s (%d objects); complete input -> %s (%d objects)' % (
+                             name, kind, [len(c) for c in chunks][:12], kinds_only(got)[-6:], len(r.values),
+                             kinds_only(whole.tokens)[-6:], len(whole.values)),
+                         {'kind': 'schedule', 'stream': name, 'codec': cdc, 'type': ts, 'stream_kind': kind,
+                          'chunk_sizes': [len(c) for c in chunks][:40], 'octets': len(data)})
+                return False
+            rep.count('schedules-' + kind)
+            return True
+        for size in (len(data), 4096, 1000, 97):
+            chunks = [data[i:i + size] for i in range(0, len(data), size)]
+            for kind in KINDS:
+                one(kind, chunks)
+        # cuts around the window boundary
+        for cut in (8190, 8191, 8192, 8193, 8194, 8200):
+            for kind in KINDS:
+                one(kind, [data[:cut], data[cut:]])
+        rep.count('large-streams')
 
 
 def _thorough_streams():
